@@ -208,6 +208,33 @@ func doUM(full string, input, prefill []byte) string {
 	})
 }
 
+// RU: the owning RUNTIME's own Unmarshal into the same generated Go type (its table-driven / fast-path decoder,
+// not the generated method), rendered like UM: the most literal "reference runtime" for this type
+func doRU(full string, input []byte) string {
+	m, err := newMessage(full)
+	if err != nil {
+		return "driver-error " + err.Error()
+	}
+	return guard(func() string {
+		if runtimeName == "gogo" {
+			type xu interface{ XXX_Unmarshal([]byte) error }
+			x, ok := m.(xu)
+			if !ok {
+				return "driver-error no XXX_Unmarshal"
+			}
+			if err := x.XXX_Unmarshal(input); err != nil {
+				return "err"
+			}
+		} else {
+			// UnmarshalOptions without the generated fast-marshal method: go through the message's ProtoReflect
+			if err := (proto.UnmarshalOptions{}).Unmarshal(input, m.(proto.Message)); err != nil {
+				return "err"
+			}
+		}
+		return "ok " + render(m)
+	})
+}
+
 // RT: generated Unmarshal then generated Marshal (unknown-field pass-through, C07)
 func doRT(full string, input []byte) string {
 	m, err := newMessage(full)
@@ -281,6 +308,8 @@ func Main(rt string) {
 				res = doRT(f[1], unhex(f[2]))
 			case "AL":
 				res = doAL(f[1], unhex(f[2]))
+			case "RU":
+				res = doRU(f[1], unhex(f[2]))
 			case "HI":
 				res = doHistory(f[1], f[2:])
 			case "CC":
